@@ -15,6 +15,7 @@ import (
 	"verif/internal/vpager"
 
 	"github.com/alicebob/sqlittle"
+	sdb "github.com/alicebob/sqlittle/db"
 )
 
 func init() { Registry["C04"] = Check{Level: "model_checking", Fn: runC04} }
@@ -52,7 +53,7 @@ func c04Probes(rows []dbgen.Row) []int64 {
 }
 
 func runC04(r *ev.Run) {
-	r.Rule = "every T1 table b-tree shape within bounds x 3 rowid sets x 2 layouts (separator = max of left / value in the gap) x every probe rowid {present, both neighbours, gap middle, last of gap (= separator), min64, max64, 0, -1, 1} through SelectRowid, PKSelect(alias pk) and Table.Rowid, each lookup also with the column lists {rowid}, {alias}, {oid, _rowid_, alias}, {} and {one stored column}, then every probe again in descending order on the same handle; plus brim-full leaves at page sizes 512/1024/4096 (a row with one partly filled overflow page at the lowest address of a page that is full to the last byte); every legal page size 512..65536 x SQLite-written tables with no row (never filled / emptied), one row, a few rows incl. int64 min/max; oracle = the builder's logical rows / SQLite's rows; non-trivial = probes on images with interior pages"
+	r.Rule = "every T1 table b-tree shape within bounds x 3 rowid sets x 2 layouts (separator = max of left / value in the gap) x every probe rowid {present, both neighbours, gap middle, last of gap (= separator), min64, max64, 0, -1, 1} through SelectRowid, PKSelect(alias pk) and Table.Rowid, each lookup also with the column lists {rowid}, {alias}, {oid, _rowid_, alias}, {} and {one stored column}, lookups made from the callback of a scan of the same table (multi-level images); then every probe again in descending order on the same handle; plus brim-full leaves at page sizes 512/1024/4096 (a row with one partly filled overflow page at the lowest address of a page that is full to the last byte); every legal page size 512..65536 x SQLite-written tables with no row (never filled / emptied), one row, a few rows incl. int64 min/max, neighbouring rowids 2^63 or more apart; oracle = the builder's logical rows / SQLite's rows; non-trivial = probes on images with interior pages"
 	r.Set("bounds", fmt.Sprintf("%+v", allBounds(r)))
 	cols := []string{"a", "b", "c", "d", "e", "rowid"}
 	defer func() {
@@ -190,6 +191,38 @@ func c04Image(r *ev.Run, si *ShapeImage, cols []string) {
 				r.Violation("C04:Table.Rowid:"+class, fmt.Sprintf("Table.Rowid(%d): record=%v err=%v, row present=%v", id, rec != nil, err, present), art)
 			}
 		}
+		// lookups made from inside a scan of the SAME table (low level API, one read lock): the scan in progress must
+		// not change what a lookup finds (a walk of its own)
+		if deep {
+			d.RLock()
+			if tb, err := d.Table("t1"); err == nil {
+				n := 0
+				probes := c04Probes(rows)
+				serr := tb.Scan(func(rowid int64, rec sdb.Record) bool {
+					n++
+					if n != 1 && n != len(rows)/2+1 && n != len(rows) {
+						return false
+					}
+					for pi, id := range probes {
+						if pi%3 != n%3 {
+							continue
+						}
+						_, present := byID[id]
+						rc, e := tb.Rowid(id)
+						r.Trans(1)
+						if e != nil || (rc != nil) != present {
+							r.Violation("C04:Table.Rowid:nested-in-scan", fmt.Sprintf("Table.Rowid(%d) from the callback of row %d of a scan of the same table: record=%v err=%v, row present=%v", id, n, rc != nil, e, present), map[string]interface{}{"image": si.Desc, "rowid": id, "present": present, "scan_row": n})
+							return true
+						}
+					}
+					return false
+				})
+				if serr != nil {
+					r.Violation("C04:scan-with-nested-lookups", fmt.Sprintf("Table.Scan with lookups made from its callback: %v", serr), si.Desc)
+				}
+			}
+			d.RUnlock()
+		}
 		// the same handle once more in descending order: what an earlier lookup left in the page cache must not
 		// change what a later one returns
 		probes := c04Probes(rows)
@@ -228,6 +261,8 @@ func c04PageSizes(r *ev.Run) {
 		}
 		l.MustExec(fmt.Sprintf("PRAGMA page_size=%d", ps))
 		l.MustExec("CREATE TABLE fresh (id INTEGER PRIMARY KEY, v); CREATE TABLE emptied (id INTEGER PRIMARY KEY, v); CREATE TABLE one (id INTEGER PRIMARY KEY, v); CREATE TABLE few (id INTEGER PRIMARY KEY, v); CREATE TABLE plain (v)")
+		// neighbouring rowids 2^63 or more apart (their difference does not fit an int64)
+		l.MustExec("CREATE TABLE ends (id INTEGER PRIMARY KEY, v); INSERT INTO ends VALUES (-9223372036854775808, 'min'), (9223372036854775807, 'max'); CREATE TABLE minzero (id INTEGER PRIMARY KEY, v); INSERT INTO minzero VALUES (-9223372036854775808, 'min'), (0, 'zero'), (1, 'one'); CREATE TABLE negmax (id INTEGER PRIMARY KEY, v); INSERT INTO negmax VALUES (-5, 'm5'), (-1, 'm1'), (9223372036854775807, 'max')")
 		l.MustExec("INSERT INTO emptied VALUES (1, 'a'), (2, 'b'), (-5, 'c'); DELETE FROM emptied; INSERT INTO one VALUES (7, 'seven'); INSERT INTO few VALUES (-9223372036854775808, 'min'), (-1, 'm1'), (0, 'zero'), (3, 'three'), (9223372036854775807, 'max'); INSERT INTO plain VALUES ('p1'), ('p2'); DELETE FROM plain WHERE rowid = 1")
 		img := l.Serialize()
 		r.Validated(1)
@@ -239,7 +274,7 @@ func c04PageSizes(r *ev.Run) {
 			l.Close()
 			continue
 		}
-		for _, tn := range []string{"fresh", "emptied", "one", "few", "plain"} {
+		for _, tn := range []string{"fresh", "emptied", "one", "few", "plain", "ends", "minzero", "negmax"} {
 			present := map[int64][]interface{}{}
 			rows, err := l.Query("SELECT rowid, v FROM " + tn)
 			if err != nil {
